@@ -867,7 +867,15 @@ func ruleC07Reported(w *World, r *Report, alloc *ssa.Function) {
 			})
 			r.check(st != nil, "R07.6", en, "the allocated TEID is what the PDR matches on", w.Pos(call.Pos()), "p.tunnelTEID = fteid", "the value returned by Allocate is not stored in the PDR's tunnelTEID")
 			if st != nil {
-				r.check(errGuarded(f, call, ev, func(i ssa.Instruction) bool { return i == ssa.Instruction(st) }), "R07.6", en, "only a successfully allocated TEID is used", w.Pos(st.Pos()), "under err == nil", "the TEID is used although Allocate failed")
+				// what must not happen after a failed Allocate is that the TEID is *used*. Writing it into a PDR
+				// that is still a variable of this function uses nothing: the TEID is used where that variable
+				// is read. Writing it anywhere else (an element of a list, a PDR reached through a pointer)
+				// publishes it at once, and there the store itself is the use.
+				use := func(i ssa.Instruction) bool { return i == ssa.Instruction(st) }
+				if readers, private := teidReadersOfLocal(st.Addr.(*ssa.FieldAddr)); private {
+					use = func(i ssa.Instruction) bool { return readers[i] }
+				}
+				r.check(errGuarded(f, call, ev, use), "R07.6", en, "only a successfully allocated TEID is used", w.Pos(st.Pos()), "under err == nil", "the TEID is used although Allocate failed")
 				// same PDR value goes to the session and to the reported list
 				pdrCell := st.Addr.(*ssa.FieldAddr).X
 				var toSession, toReport bool
@@ -945,6 +953,57 @@ func ruleC07Reported(w *World, r *Report, alloc *ssa.Function) {
 		})
 		r.check(serves || refuses, "R07.6", w.FuncName(root), "a created PDR with the CHOOSE flag gets a TEID from the generator (or is refused)", w.Pos(e.Site.Pos()), "Allocate is called", "PDRs created by this handler may carry the CHOOSE flag (parseFTEID sets UPAllocateFteid) but no TEID is allocated and none is reported: the PDR is programmed with TEID 0 / mask 0")
 	}
+}
+
+// teidReadersOfLocal: fa addresses a field of a struct variable of the function. When that variable is
+// private to the function — it is only read, written, has its fields addressed, or is lent to a call for
+// the duration of the call — the result lists the instructions through which the field's value can
+// leave the variable: copies of the whole variable, reads of the field, calls that are given the address of
+// the variable or of the field. private is false when the variable is not a local or its address is kept
+// somewhere (stored, captured by a closure, merged with other pointers).
+func teidReadersOfLocal(fa *ssa.FieldAddr) (readers map[ssa.Instruction]bool, private bool) {
+	cell, ok := fa.X.(*ssa.Alloc)
+	if !ok || cell.Referrers() == nil {
+		return nil, false
+	}
+	readers = map[ssa.Instruction]bool{}
+	// uses of an address a (the variable or the field): false when a is kept
+	var scan func(a ssa.Value, whole bool) bool
+	scan = func(a ssa.Value, whole bool) bool {
+		if a.Referrers() == nil {
+			return true
+		}
+		for _, ref := range *a.Referrers() {
+			switch x := ref.(type) {
+			case *ssa.DebugRef:
+			case *ssa.Store:
+				if x.Addr != a {
+					return false // the address itself is stored
+				}
+			case *ssa.UnOp:
+				if x.Op != token.MUL {
+					return false
+				}
+				readers[x] = true
+			case *ssa.FieldAddr:
+				if !whole {
+					return false
+				}
+				if x.Field == fa.Field && !scan(x, false) {
+					return false
+				}
+			case *ssa.Call:
+				readers[x] = true
+			default:
+				return false
+			}
+		}
+		return true
+	}
+	if !scan(cell, true) {
+		return nil, false
+	}
+	return readers, true
 }
 
 func throughCell(v, want ssa.Value) bool {
